@@ -119,3 +119,6 @@ func (d *Dir) SetBBad(on bool) {
 func (d *Dir) SetCBad()  { *d |= mA | mB }
 func (d Dir) A() bool    { return d&mA != 0 }
 func (d Dir) BBad() bool { return d&(mA|mB) != 0 }
+
+var listGood = [...]rune{0x28, 0x29, 0x3c, 0x3e}
+var listBad = [...]rune{0x28, 0x29, 0x5b, 0x3e}
